@@ -21,12 +21,21 @@ def run(ctx):
     c_persist.wire_check(ctx, h, in_range, label)
     if ctx.violations:
         return
+    if ch.coin(1, 4, "continue-on-loaded"):
+        c_persist.continue_on_loaded(ctx, h.to_json(), label)
+        if ctx.violations:
+            return
     # packages built from it (modules only here; extensions are covered by C10's documents)
     from hugr.package import Package
     if ch.coin(1, 3, "package"):
         ctx.checked("schema-package")
         try:
-            pdoc = json.loads(Package([h])._to_serial().model_dump_json())
+            # the package document as it is actually emitted: the payload of the (uncompressed) envelope
+            payload = Package([h]).to_bytes()[10:]
+            pdoc = wire.strict_loads(payload)
+        except wire.NotJson as e:
+            ctx.violate("schema", "package:payload-is-not-json", {"error": str(e)})
+            return
         except Exception as e:  # noqa: BLE001
             ctx.violate("serialise", f"package-raised:{type(e).__name__}", repr(e)[:200])
             return
